@@ -313,6 +313,29 @@ Section Env.
       destruct (listing cfg) eqn:El. 2: discriminate. intros H. destruct (L _ H) as [Ht [names [Hn Hr]]].
       split. reflexivity. split. exact Ht. exists path, names. auto.
   Qed.
+  Lemma serve_not_redirect path s l : serve can_open path s <> RRedirect l.
+  Proof. unfold serve. destruct (negb (has_bit s S_IFREG)). discriminate. destruct (can_open (cstr path)); discriminate. Qed.
+  Lemma list_dir_not_redirect url path l : list_dir file_mode dir_entries url path <> RRedirect l.
+  Proof. unfold list_dir. destruct (dir_entries (cstr path)); discriminate. Qed.
+
+  Theorem main_redirects cfg f loc :
+    fs_main canonical file_mode dir_entries can_open cfg f = RRedirect loc ->
+    loc = f ++ [slash] /\ last f 0 <> slash /\
+    exists path, check_in_document_root canonical cfg f = Some path /\ has_bit (file_mode (cstr path)) S_IFDIR = true.
+  Proof.
+    unfold fs_main. destruct (check_in_document_root canonical cfg f) as [path|] eqn:E1. 2: discriminate.
+    destruct (has_bit (file_mode (cstr path)) S_IFDIR) eqn:Ed.
+    2: { intros H. exfalso. revert H. apply serve_not_redirect. }
+    set (idx := check_in_document_root canonical cfg (f ++ slash :: index_file cfg)).
+    set (hi := match idx with Some _ => has_bit match idx with Some p2 => file_mode (cstr p2) | None => 0 end S_IFREG | None => false end).
+    destruct (negb (is_nil f) && negb (last f 0 =? slash) && (hi || listing cfg)) eqn:Ec.
+    - intros H. inversion H. split. reflexivity. split.
+      + apply andb_true_iff in Ec. destruct Ec as [Ec _]. apply andb_true_iff in Ec. destruct Ec as [_ Ec].
+        apply negb_true_iff in Ec. apply N.eqb_neq. exact Ec.
+      + exists path. split; reflexivity || assumption.
+    - destruct hi. destruct idx. intros H. exfalso. revert H. apply serve_not_redirect. discriminate.
+      destruct (listing cfg). intros H. exfalso. revert H. apply list_dir_not_redirect. discriminate.
+  Qed.
 End Env.
 
 Lemma is_file_prefix_iff rcs cs : Forall good rcs -> Forall good cs ->
